@@ -217,7 +217,11 @@ class PluginFilter(object):
         self.comm = self.h.comm
 
     def gcode(self, cmd):
-        return self.h.gcode_raw(cmd)
+        # most commands come from the file being printed, a few from elsewhere (terminal, API, another plugin, no tags at all):
+        # during an active print the hook treats them all alike
+        self.ncmd = getattr(self, "ncmd", 0) + 1
+        source = "file" if self.ncmd % 6 else ("api", "plugin:other", "none")[(self.ncmd // 6) % 3]
+        return self.h.gcode_raw(cmd, source)
 
     def at(self, cmd, params, streaming=False):
         return self.h.at(cmd, params, streaming)
